@@ -150,6 +150,7 @@ func main() {
 			var mac []byte
 			var err error
 			p := ev.Catch(func() { mac, err = security.NASMacCalculate(c.alg, c.key, c.count, c.bearer, c.dir, c.msg) })
+			ev.Hold("MAC returned by NASMacCalculate", mac)
 			e["out"] = ev.Ints(mac)
 			e["err"] = err != nil || p != ""
 		}
